@@ -33,8 +33,8 @@ UNITS = {
         region=dict(start=r'unsigned\s+int\s+h5mode\s*=', end=r'hid\s*=\s*H5Fopen\([^;]*;\s*\}', ret='bool',
                     params=[('const cxxstring &', 'name'), ('FileMode', 'mode'), ('H5Object', 'fcpl')], ret_expr='is_create')),
     'File_open_guard': dict(file='src/File.cpp', locator=r'File\s+File::open\s*\(', classes=['cxxstring'], pre_rules=[bfs_rule],
-        region=dict(start=r'if\s*\(\s*mode\s*==\s*nix::FileMode::ReadOnly', end=r'ReadOnly mode!"\);\s*\}',
-                    params=[('const cxxstring &', 'name'), ('FileMode', 'mode')])),
+        # everything File::open does before it dispatches on the implementation name (so that the guard cannot hide inside another branch)
+        region=dict(start=r'\A\{', end=r'(?=if\s*\(\s*impl\s*==\s*"hdf5")', params=[('const cxxstring &', 'name'), ('FileMode', 'mode'), ('Compression', 'compression')], strip_first_brace=True)),
 }
 TC = dict(cls='FileHDF5t', cls_file=FHH, cls_decl='FileHDF5', classes=['FileHDF5t', 'H5GroupT'], member_types={'root': 'H5GroupT'})
 UNITS.update({
